@@ -296,6 +296,8 @@ class Impl:
         import signal
 
         np = self.np
+        if self.hangs >= 5:
+            return ("other", "Hang: not run, the implementation hung %d times before" % self.hangs)
 
         def on_alarm(signum, frame):
             raise Hang("no answer within %d s" % self.limit)
@@ -433,6 +435,30 @@ def gen_case(r, thorough=False, exotic=False):
             total[c] += smp
     return dict(version=version, ftype=ftype, nchan=nchan, bs0=bs0, maxnlpc=maxnlpc, nmean=nmean,
                 skip=skip, script=script, chans=total)
+
+
+def gen_long_case(r):
+    """a stream of 18-30 KiB: crosses the first 16 KiB read and several refills of word_get"""
+    nchan = r.choice([1, 2])
+    bs0 = r.choice([64, 100, 256])
+    ftype = r.choice([TYPE_S16HL, TYPE_S16LH, TYPE_AU2])
+    au = ftype == TYPE_AU2
+    maxnlpc = r.choice([0, 2, 8])
+    nround = (7000 if au else 4500) // (bs0 * nchan) + r.randint(0, 4)
+    script, total = [], [[] for _ in range(nchan)]
+    for g in range(nround):
+        for c in range(nchan):
+            if au:
+                smp = [r.randint(0, 255) for _ in range(bs0)]
+                resn = 6
+            else:
+                smp = gen_signal(r, bs0, 30000, "noise")
+                resn = 14
+            pred = r.choice([0, 1, 2, 3] + ([[r.randint(-20, 20) for _ in range(maxnlpc)]] if maxnlpc and bs0 >= maxnlpc else []))
+            script.append(("blk", pred, resn + (2 if isinstance(pred, list) or pred in (2, 3) else 0), smp))
+            total[c] += smp
+    return dict(version=2, ftype=ftype, nchan=nchan, bs0=bs0, maxnlpc=maxnlpc, nmean=r.choice([0, 4]), skip=[],
+                script=script, chans=total)
 
 
 def coq_item(it):
@@ -774,8 +800,7 @@ def read_wav(path):
 
 def check_vectors(ctx, impl):
     """implementation against the WAVs (the property's last clause)"""
-    np = impl.np
-    streams = []
+    streams, vec_fails = [], []
     for name, nchan, ftype, sph, wav in ref_vectors():
         want = read_wav(wav)
         ctx.count("vectors:" + name)
@@ -784,14 +809,14 @@ def check_vectors(ctx, impl):
         what = "different samples" if got[0] == "ok" else "%s: %s" % (got[0], got[1])
         ctx.case(dict(kind="vector", name=name, samples=len(want)))
         if not ok:
-            ctx.fail("reference vector %s does not decode to its WAV (%s)" % (name, what),
-                     dict(kind="vector", file=sph, wav=wav, detail=what), kind="impl")
+            vec_fails.append(("reference vector %s does not decode to its WAV (%s)" % (name, what),
+                              dict(kind="vector", file=sph, wav=wav, detail=what)))
         data = open(sph, "rb").read()
         hdrsize = int(data.split(b"\n")[1])
         streams.append((data[hdrsize:], dict(kind="refvec:" + name, case=dict(
             version=2, ftype=ftype, nchan=nchan, bs0=256, maxnlpc=0, nmean=4, skip=[], script=[], chans=[]),
             trusted=False, expect_io=False, expected=[], dt="NONE", nsamp=len(want) // nchan)))
-    return streams
+    return streams, vec_fails
 
 
 # --------------------------------------------------------------------------
@@ -802,8 +827,12 @@ def search(ctx, impl, n_cases):
     r = ctx.rng
     _, pcm = ref_tables()
     bad = []
-    for i in range(n_cases):
-        c = gen_case(r, ctx.thorough)
+    n_long = ctx.scale(2, 12)
+    for i in range(n_cases + n_long):
+        if i < n_long:
+            c = gen_long_case(r)  # longer than the 16 KiB first read and several 1 KiB refills
+        else:
+            c = gen_case(r, ctx.thorough)
         if c["ftype"] not in ORACLE_TYPES:
             continue
         enc = PyEncoder(c["version"], c["ftype"], c["nchan"], c["bs0"], c["maxnlpc"], c["nmean"], c["skip"],
@@ -819,6 +848,7 @@ def search(ctx, impl, n_cases):
         nsamp = len(c["chans"][0]) + r.choice([0, 0, 4])
         got = impl.decode(payload, c["nchan"], nsamp, c["ftype"], dtkey)
         count_case(ctx, c, "S")
+        ctx.count("S:long-streams(>16KiB)" if len(payload) > 17500 else "S:short-streams")
         ctx.case(dict(kind="S", dt=dtkey, bytes=len(payload), sha=hashlib.sha1(payload).hexdigest()[:12], **summarize(c)),
                  nontrivial=bool(want))
         rep = dict(kind="S", dt=dtkey, params=summarize(c), payload_hex=payload.hex(), nchan=c["nchan"], nsamp=nsamp,
@@ -888,8 +918,8 @@ def run(ctx):
                      dict(correspondence="pinned reference tables vs _sphere.py"), kind="tie", no_input=True)
     except Exception as e:  # noqa: BLE001
         ctx.fail("cannot import the implementation: %s" % e, dict(error=str(e)), kind="tie", no_input=True)
-    streams = check_vectors(ctx, impl)
-    nbad = 0
+    streams, vec_fails = check_vectors(ctx, impl)
+    nbad = len(vec_fails)
     if model_ok:
         nbad += corr_encoder(ctx, impl, ctx.scale(240, 3000))
         nvec = len(streams) if ctx.thorough else 2
@@ -898,6 +928,8 @@ def run(ctx):
     bad = search(ctx, impl, ctx.scale(400, 12000))
     for name, rep in bad[:10]:
         ctx.fail("property violated on the implementation (%s)" % name, rep, kind="impl")
+    for what, rep in vec_fails:  # small generated streams make better replays: the vectors come last
+        ctx.fail(what, rep, kind="impl")
     if ((pr is not None and not pr["ok"]) or not ok_gen) and not bad and not nbad:
         ctx.log("search found no failing input on the implementation")
     ctx.cov["rule"] = (
